@@ -8,6 +8,10 @@ NOTE_COMMON = ("Trusted base: go/packages + go/types + go/ssa of golang.org/x/to
                "so a large refactoring can raise an alarm although behaviour is preserved.")
 
 claimed = {
+ "C05": dict(
+   text="Decides the table and shape clauses of eexec transparency for all inputs: cipher constants equal the Adobe values in both packages; the decryption step has the specified data flow with ciphertext feedback (canonical term comparison); the pre-ciphertext white-space set, the hex/binary detection set and the two hex de-armouring classifiers are evaluated over all 256 byte values and equal the specification; four lead bytes are discarded; the eexec operator pushes systemdict, refuses nesting, ends decryption and restores the dictionary stack to the captured length on every normal completion, maps exactly io.EOF to completion; readstring skips exactly one byte and reads from the current scanner. Does not decide equality of effects with the plaintext run nor peek/replay across refills.",
+   technique="static analysis: go/types constants, canonical symbolic terms of straight-line cipher code, exhaustive byte-domain evaluation of comparison-only classifiers, go/ssa dominance rules for the operator",
+   ref="DESIGN.md §5 C05"),
  "C12": dict(
    text="Decides only necessary conditions of delivery independence at the places where the library touches an io.Reader: byte counts of direct Reads are accounted before the error is acted on; refill reports no error while it delivered data and the first error is sticky; fixed-size reads use io.ReadFull; the seekable branch of the first-byte sniffer seeks back to the saved offset before every successful return and the buffered branch replays its bytes once; the per-run scanner is popped by a deferred function. Equality of results across delivery schedules and across split Execute calls is NOT decided (run-time state sequences).",
    technique="static analysis: go/ssa def-use and dominance rules at every io.Reader call site",
